@@ -92,6 +92,11 @@ def finish(prop, tier, seed, t0, violations, infra, ev, di, samples, rule, assum
 
 def replay(path):
     rp = json.load(open(path))
+    if "schedule" in rp and "params" in rp:
+        return driver.replay_sched(path)
+    if not rp.get("args"):
+        print("this violation was derived by the driver from several runs; re-run the check to reproduce it:\n%s" % json.dumps(rp, indent=1)[:2000])
+        return 1
     exe, _ = reflect_harness(rp["harness"], rp["variant"])
     args = [a for a in (rp.get("args") or []) if not a.startswith("shard=")]
     spec = rp.get("spec") or ""
